@@ -359,8 +359,10 @@ func (r *transport) handleCacheHit(
 	}
 
 revalidate:
-	req = withConditionalHeaders(req, stored.Data.Header)
-	resp, start, end, err := r.roundTripTimed(req)
+	// The conditional request is what goes upstream. The result is stored for
+	// the client's own request: its header values select the variant, not the
+	// validators the cache added (think of "Vary: If-None-Match").
+	resp, start, end, err := r.roundTripTimed(withConditionalHeaders(req, stored.Data.Header))
 	ctx := internal.RevalidationContext{
 		URLKey:    urlKey,
 		Start:     start,
@@ -437,14 +439,13 @@ func (r *transport) handleStaleWhileRevalidate(
 	ccResp internal.CCResponseDirectives,
 ) (*http.Response, error) {
 	req2 := req.Clone(req.Context())
-	req2 = withConditionalHeaders(req2, stored.Data.Header)
 	// Background revalidation is "best effort"; it is not guaranteed to complete
 	// if the program exits before the goroutine finishes. This design choice was
 	// made to keep the API simple and avoid requiring explicit shutdown coordination.
 	//
 	// Open a discussion at github.com/bartventer/httpcache/issues if your use case requires
 	// guaranteed completion.
-	go r.backgroundRevalidate(req2, stored, urlKey, freshness, ccReq)
+	go r.backgroundRevalidate(withConditionalHeaders(req2, stored.Data.Header), req2, stored, urlKey, freshness, ccReq)
 	// Served without validation: fields named by a qualified no-cache must not be replayed
 	internal.StripNoCacheFields(stored.Data.Header, ccResp)
 	internal.SetAgeHeader(stored.Data, r.clock, freshness.Age)
@@ -459,8 +460,10 @@ func (r *transport) handleStaleWhileRevalidate(
 	return stored.Data, nil
 }
 
+// backgroundRevalidate sends req (the conditional request) upstream and handles
+// the answer for clientReq, the background work's own copy of the client's request.
 func (r *transport) backgroundRevalidate(
-	req *http.Request,
+	req, clientReq *http.Request,
 	stored *internal.Response,
 	urlKey string,
 	freshness *internal.Freshness,
@@ -517,7 +520,7 @@ func (r *transport) backgroundRevalidate(
 			Freshness: freshness,
 		}
 		//nolint:bodyclose // The response is not used, so we don't need to close it.
-		_, err = r.vrh.HandleValidationResponse(revalCtx, req, resp, nil)
+		_, err = r.vrh.HandleValidationResponse(revalCtx, clientReq, resp, nil)
 		errc <- err
 	}()
 
